@@ -91,6 +91,18 @@ def _case(draw, tier):
         form = draw(st.sampled_from(["nary", "binl", "binr"]))
         case["cond"] = [conn, form, parts]
         case["split_top"] = conn == "and" and draw(st.booleans())
+        left_or_story = nv == 2 and chance(draw, 1, 6)
+        if left_or_story:
+            # a sub-query with a disjunction of its own as the LEFT operand of an outer disjunction whose right operand is
+            # about the variable the sub-query does not select (and the query does not select it either)
+            v = draw(st.sampled_from(allv))
+            first = leaf(draw, ctx, allv)
+            if chance(draw, 1, 2):
+                first = ["and", "nary", [first, leaf(draw, ctx, draw(st.sampled_from([[v], allv])))]]
+            inner = ["or", draw(st.sampled_from(["nary", "binl"])), [first, leaf(draw, ctx, draw(st.sampled_from([[v], allv])))]]
+            case["cond"] = ["or", form, [["sub", "entity", [v], inner], leaf(draw, ctx, draw(st.sampled_from([[1 - v], allv])))]]
+            case["split_top"] = False
+            parts = case["cond"][2]
         if chance(draw, 1, 3) and not A.has_kind(case["cond"], "not"):
             if chance(draw, 1, 3):
                 # the plain story: two sub-queries over the same variable(s), q1 | q2 or q1 & q2, nothing else
@@ -104,6 +116,9 @@ def _case(draw, tier):
                                               "earlier_conn": draw(st.sampled_from([None, None, "and", "or"]))}
         k = draw(st.integers(1, nv))
         case["sel"] = [["var", v] for v in list(draw(st.permutations(allv)))[:k]]
+        if left_or_story:
+            case["sel"] = [["var", case["cond"][2][0][2][0]]]
+            k = 1
         case["desc"] = "entity" if (k == 1 and draw(st.booleans())) else "set_of"
     elif position in ("operand", "argument"):
         # v0 = outer variable l, v1 = sub-query variable x; l.ref == an(entity(x, c))
